@@ -162,6 +162,24 @@ func suiteGrammar(o *Out, thorough bool, seed int64) {
 		}
 		o.Notes = append(o.Notes, "deep nesting: 9 nesting constructs x depths up to 100 (thorough 500) x operator pairs over 10 precedence levels in the innermost expression")
 	}
+	// (b3) "parentheses, brackets and call arguments nest as written" far beyond 64 KiB of text: derivable, hence
+	// accepted (judged on the Go side; the tree is a chain of the one construct)
+	for _, d := range []int{65537, 100000, 100001, 131073, 250000} {
+		for _, sh := range []struct{ open, mid, close string }{{"(", "1", ")"}, {"-", "a", ""}, {"[", "", "]"}, {"f(", "1", ")"}, {"!", "x", ""}} {
+			nt := fmt.Sprintf("NOP\tdeepnest\t%d:%s", d, sh.open)
+			o.Case(nt, "-", true)
+			text := strings.Repeat(sh.open, d) + sh.mid + strings.Repeat(sh.close, d)
+			var err error
+			pan, msg := protect(func() { _, err = formula.ParseSourceCode([]byte(text)) })
+			if pan || err != nil {
+				es := msg
+				if err != nil {
+					es = err.Error()
+				}
+				o.Fail(nt, fmt.Sprintf("a well-formed formula nested %d levels deep (%q ...) is rejected: %.200s", d, sh.open, es))
+			}
+		}
+	}
 	// (d) random grammar-directed programs with minimal parenthesisation
 	r := newRand(seed, "grammar")
 	g := &gen{r: r, idents: []string{"x", "y", "s"}, funcs: []string{"f", "g.h", "len"}, lits: []string{"1", "2.5", "'a'", "null", "true", "this", "ctx", "0x1f", "1e3", ".5"}}
